@@ -313,6 +313,76 @@ func (c *Ctx) rulePolicyCall(fn *ssa.Function, fa *FnAnalysis) {
 			why = "after a rejection the loop continues (a later value may still be offered or appended)"
 		}
 	}
+	// (1b) every offered value is put to the policy while room remains: within an iteration the
+	// policy call can be bypassed only by the loop test or by the fullness test - no other
+	// condition (a no-nesting filter, a type test) may drop a value without the policy having seen it
+	{
+		S := pc.Block()
+		reaches := func(from *ssa.BasicBlock) bool {
+			seen := map[*ssa.BasicBlock]bool{}
+			var walk func(b *ssa.BasicBlock) bool
+			walk = func(b *ssa.BasicBlock) bool {
+				if b == S {
+					return true
+				}
+				if seen[b] {
+					return false
+				}
+				seen[b] = true
+				if _, isHdr := fa.loopOf[b]; isHdr {
+					return false
+				}
+				for _, sc := range b.Succs {
+					if walk(sc) {
+						return true
+					}
+				}
+				return false
+			}
+			return walk(from)
+		}
+		skipMsg := ""
+		for d := S.Idom(); d != nil; d = d.Idom() {
+			iff, ok := d.Instrs[len(d.Instrs)-1].(*ssa.If)
+			if !ok {
+				continue
+			}
+			bypass := false
+			for _, sc := range d.Succs {
+				if !reaches(sc) {
+					bypass = true
+				}
+			}
+			if !bypass {
+				continue
+			}
+			if _, isHdr := fa.loopOf[d]; isHdr {
+				continue
+			}
+			cond := iff.Cond
+			if no, ok := cond.(*ssa.UnOp); ok && no.Op == token.NOT {
+				cond = no.X
+			}
+			if call, ok := cond.(*ssa.Call); ok && c.calleeName(&call.Call) == "stack.isFull" {
+				continue
+			}
+			inLoop := false
+			for _, blocks := range fa.loopOf {
+				if blocks[d] {
+					inLoop = true
+				}
+			}
+			if !inLoop {
+				continue
+			}
+			skipMsg = "the test at " + c.p.instrPos(iff) + " can keep a value from the policy although room remains"
+		}
+		if skipMsg == "" {
+			rep.ok("R-POLICY", name, "every value is put to the policy", ppos, "inside an iteration only the fullness test can bypass the policy call")
+		} else {
+			rep.bad("R-POLICY", name, "every value is put to the policy", ppos, skipMsg)
+		}
+	}
 	// (4) no rejection goes unreported: wherever the function returns with the policy's
 	// verdict on the last value consulted being an error, setErr has recorded that error
 	{
